@@ -2,6 +2,7 @@ package mon
 
 import (
 	"fmt"
+	"io"
 	"net/http"
 	"strings"
 )
@@ -28,6 +29,9 @@ func (s Step) String() string {
 	case "panic":
 		return "panic"
 	default:
+		if s.Val != "" {
+			return fmt.Sprintf("io.WriteString(%q)", s.Val)
+		}
 		return fmt.Sprintf("Write(%d)", s.N)
 	}
 }
@@ -59,7 +63,11 @@ func (p *Prog) Exec(w http.ResponseWriter) {
 		case "status":
 			w.WriteHeader(s.Code)
 		case "write":
-			w.Write(make([]byte, s.N))
+			if s.Val != "" { // text, written the way fmt.Fprint / io.WriteString / template execution do it
+				io.WriteString(w, s.Val)
+			} else {
+				w.Write(make([]byte, s.N))
+			}
 		case "panic":
 			panic("program panics")
 		}
